@@ -34,6 +34,9 @@ class Profile:
 
     def __init__(self, **kw):
         self.min_types, self.max_types = 2, 6
+        self.p_crowd = 0.02              # a scenario with one naming type instantiated 24..36 times: more singletons than any
+                                         # batch size or table capacity a maintainer would pick (the App and the ten built-in
+                                         # processors come on top)
         self.max_ifaces = 3
         self.p_extra_instance = 0.25     # second instance of a type (needs a custom name)
         self.p_naming = 0.35
@@ -150,6 +153,13 @@ def gen_scenario(rng, sid, pf):
             bt["runner"] = rng.choice("POU") if rng.random() < 0.7 else None
             bt["closer"] = rng.random() < 0.5
         types.append(bt)
+    crowd = rng.random() < pf.p_crowd
+    crowd_type = None
+    if crowd:
+        cands = [ti for ti, t in enumerate(types) if not t.get("bare") and not t["proc"]]
+        if cands:
+            crowd_type = rng.choice(cands)
+            types[crowd_type]["naming"] = True
     for ti, t in enumerate(types):
         ninst = 1
         if t.get("bare"):
@@ -160,6 +170,8 @@ def gen_scenario(rng, sid, pf):
             continue
         if t["naming"] and not t["proc"] and rng.random() < pf.p_extra_instance:
             ninst = 2
+        if t["naming"] and not t["proc"] and crowd and ti == crowd_type:
+            ninst = rng.randint(24, 36)
         for j in range(ninst):
             name = ""
             if t["naming"]:
@@ -260,7 +272,7 @@ def gen_scenario(rng, sid, pf):
                 p["reqspell"] = rng.choice(["", "=true", "=True", "=1", "=yes", "=FALSE", "=no"])
             (func if kind == "func" else wire).append(p)
         t["fields"] = wire + func
-        if rng.random() < pf.p_cfg:
+        if rng.random() < pf.p_cfg or (crowd and ti == crowd_type):      # the crowd always carries a non-wire tag
             for _ in range(rng.randint(1, 2)):
                 t["cfields"].append({"prefix": rng.random() < 0.4, "required": rng.random() >= pf.p_optional,
                                      "sat": rng.random() >= pf.p_cfg_unsat})
